@@ -160,7 +160,8 @@ void cmi_mempool_expand(struct cmi_mempool *mp)
     /* Expand the area list if necessary */
     if (++mp->chunk_list_cnt == mp->chunk_list_len) {
         mp->chunk_list_len += CHUNK_LIST_SIZE;
-        cmi_realloc(mp->chunk_list, mp->chunk_list_len);
+        mp->chunk_list = cmi_realloc(mp->chunk_list,
+                                     mp->chunk_list_len * sizeof(void *));
     }
 
     /* Allocate another contiguous array of objects, aligned to page size */
